@@ -102,6 +102,19 @@ func (u *UInt) Unpack(i int64) error {
 	return nil
 }
 
+// UPrim is an Unpacker of a primitive kind: the validators of the field's tag apply to the
+// number its Unpack method stores, as they apply to a plain number.
+type UPrim int64
+
+// Unpack records the value.
+func (u *UPrim) Unpack(i int64) error {
+	if err := cb.hit("Unpack", "UPrim", i, true); err != nil {
+		return err
+	}
+	*u = UPrim(i)
+	return nil
+}
+
 // UBool implements BoolUnpacker.
 type UBool struct {
 	B, Set bool
@@ -347,12 +360,13 @@ const (
 	KIfPInner
 	KPA2
 	KMA2
+	KUPrim
 	kindCount
 )
 
 var kindNames = [...]string{"int", "int8", "uint16", "float64", "string", "bool", "duration", "*int", "*string", "VInt", "VStr",
 	"UStr", "UInt", "UBool", "UFloat", "UAny", "UCfg", "[]int", "[]string", "[]VInt", "[2]int", "map[string]int", "map[string]interface{}",
-	"interface{}", "*Config", "DInt", "Inner", "*Inner", "struct", "*struct", "[]struct", "map[string]struct", "inline-struct", "float32", "map[string][]int", "map[string]VInt", "PI", "*[]int", "*duration", "UUint", "[]UStr", "[]UCfg", "[]map[string]int", "*regexp", "[2]struct", "[][]VInt", "map[string][]VInt", "uint64", "*UStr", "map[string]UCfg", "URefl", "UVal", "URe", "interface{}(*Inner)", "*[2]int", "map[string][2]int"}
+	"interface{}", "*Config", "DInt", "Inner", "*Inner", "struct", "*struct", "[]struct", "map[string]struct", "inline-struct", "float32", "map[string][]int", "map[string]VInt", "PI", "*[]int", "*duration", "UUint", "[]UStr", "[]UCfg", "[]map[string]int", "*regexp", "[2]struct", "[][]VInt", "map[string][]VInt", "uint64", "*UStr", "map[string]UCfg", "URefl", "UVal", "URe", "interface{}(*Inner)", "*[2]int", "map[string][2]int", "UPrim"}
 
 func (k Kind) String() string { return kindNames[k] }
 
@@ -369,7 +383,7 @@ var leafTypes = map[Kind]reflect.Type{
 	KUUint: reflect.TypeOf(UUint{}), KSUStr: reflect.TypeOf([]UStr(nil)), KSUCfg: reflect.TypeOf([]UCfg(nil)),
 	KSMap: reflect.TypeOf([]map[string]int(nil)), KRegex: tRegex,
 	KUVal: reflect.TypeOf(UVal{}), KURe: reflect.TypeOf(URe{}), KIfPInner: tIface,
-	KPA2: reflect.TypeOf((*[2]int)(nil)), KMA2: reflect.TypeOf(map[string][2]int(nil)),
+	KPA2: reflect.TypeOf((*[2]int)(nil)), KMA2: reflect.TypeOf(map[string][2]int(nil)), KUPrim: reflect.TypeOf(UPrim(0)),
 	KPUStr: reflect.TypeOf((*UStr)(nil)), KMUCfg: reflect.TypeOf(map[string]UCfg(nil)), KURefl: reflect.TypeOf(URefl{}),
 	KSSVInt: reflect.TypeOf([][]VInt(nil)), KMSVInt: reflect.TypeOf(map[string][]VInt(nil)), KU64: reflect.TypeOf(uint64(0)),
 	KMVInt: reflect.TypeOf(map[string]VInt(nil)), KPI: reflect.TypeOf(PI(0)), KPSInt: reflect.TypeOf((*[]int)(nil)),
